@@ -480,8 +480,9 @@ func runCheck(prop string, pc *propCfg, tier string) int {
 				"VERIF_FLAGS=" + string(flags), "GOMAXPROCS=1"}
 			out, err := b.worker(env, time.Duration(secs)*time.Second+10*time.Minute)
 			if err != nil {
-				if len(out) > 3000 {
-					out = out[len(out)-3000:]
+				if len(out) > 9000 {
+					// a crashed worker says why at the top (fatal error / panic line) and where at the bottom
+					out = out[:5000] + "\n[...]\n" + out[len(out)-3000:]
 				}
 				errs[i] = fmt.Sprintf("worker %d: %v\n%s", i, err, out)
 			}
